@@ -184,6 +184,41 @@ pub fn c15_tracked_balance() {
     cover!(unsafe { CLONES } == 2, "both_gets_cloned");
 }
 
+/// Script-side `contains` / `index` take their item by value (`ErasedList::contains_owned` / `index_owned`): whatever
+/// the list holds - nothing ($n = 0) or one element - the item is released exactly once and the answer is the
+/// shared-vector one (sixth seeding round: an early return for the empty list skipped the release).
+macro_rules! contains_owned {
+    ($name:ident, $n:expr, $unwind:expr) => {
+        #[cfg_attr(kani, kani::proof)]
+        #[cfg_attr(kani, kani::stub(std::sync::Mutex::lock, crate::stubs::mutex_lock_stub))]
+        #[cfg_attr(kani, kani::unwind($unwind))]
+        pub fn $name() {
+            unsafe {
+                LIVE = 0;
+                CLONES = 0;
+            }
+            let x: u64 = any();
+            let y: u64 = any();
+            let a: List<Val<Tracked>> = List::new();
+            if $n == 1 {
+                a.push(Val(Tracked::new(y)));
+            }
+            let live0 = unsafe { LIVE };
+            let r = list_verif::contains_owned(&a, Val(Tracked::new(x)));
+            assert!(unsafe { LIVE } == live0, "contains must release the item it was given exactly once");
+            assert!(r == ($n == 1 && x == y), "contains answer");
+            let i = list_verif::index_owned(&a, Val(Tracked::new(x)));
+            assert!(unsafe { LIVE } == live0, "index must release the item it was given exactly once");
+            assert!(i == if $n == 1 && x == y { Some(0) } else { None }, "index answer");
+            cover!(true, "reached_end");
+            std::mem::forget(a);
+        }
+    };
+}
+contains_owned!(c15_contains_owned_empty, 0, 4);
+// the derived `==` of the 24-byte element compares its 16-byte array with memcmp
+contains_owned!(c15_contains_owned_one, 1, 18);
+
 /// `a == b` on two distinct lists terminates with the element-wise answer
 /// (Rust API `List::eq`).
 #[cfg_attr(kani, kani::proof)]
@@ -450,4 +485,6 @@ crate::list![
     c15_eq_alias,
     c15_eq_distinct_erased_len,
     c15_ffi_list_get_u32,
+    c15_contains_owned_empty,
+    c15_contains_owned_one,
 ];
